@@ -271,12 +271,117 @@ func swapping(cfg fw.Config, rec *fw.Rec, round int) {
 	}
 }
 
+// derived: each new version is derived from the one in use with Spec.Copy,
+// edited (every action and guard re-stamped), compiled and then installed,
+// while walkers keep walking whatever version they obtained.
+func derived(cfg fw.Config, rec *fw.Rec, round int) {
+	stampSrc := func(k int) string {
+		return fmt.Sprintf("var bs = _.bindings; bs.stamps = (bs.stamps || []).concat([%d]); return bs;", k)
+	}
+	build := func(k int) (*core.Spec, error) {
+		src := func() *core.ActionSource { return &core.ActionSource{Interpreter: "ecmascript", Source: stampSrc(k)} }
+		s := &core.Spec{Name: "derived", Version: fmt.Sprint(k), Nodes: map[string]*core.Node{
+			"start": {ActionSource: src(), Branches: &core.Branches{Type: "bindings", Branches: []*core.Branch{{GuardSource: src(), Target: "n1"}}}},
+			"n1":    {ActionSource: src(), Branches: &core.Branches{Type: "bindings", Branches: []*core.Branch{{GuardSource: src(), Target: "n2"}}}},
+			"n2":    {ActionSource: src(), Branches: &core.Branches{Type: "bindings", Branches: []*core.Branch{{Target: "done"}}}},
+			"done":  {Branches: &core.Branches{Type: "message"}},
+		}}
+		return s, s.Compile(context.Background(), nil, true)
+	}
+	first, err := build(1)
+	if err != nil {
+		rec.Inconclusive("derived spec: " + err.Error())
+		return
+	}
+	us := core.NewUpdatableSpec(first)
+	stop := make(chan struct{})
+	var swg sync.WaitGroup
+	var versions int64 = 1
+	swg.Add(1)
+	go func() {
+		defer swg.Done()
+		for k := 2; ; k++ {
+			select {
+			case <-stop:
+				return
+			default:
+			}
+			next := us.Spec().Copy(fmt.Sprint(k)) // documented as a deep copy
+			for _, n := range next.Nodes {
+				if n.ActionSource != nil {
+					n.ActionSource.Source = stampSrc(k)
+				}
+				if n.Branches != nil {
+					for _, b := range n.Branches.Branches {
+						if b.GuardSource != nil {
+							b.GuardSource = &core.ActionSource{Interpreter: "ecmascript", Source: stampSrc(k)}
+						}
+					}
+				}
+			}
+			if err := next.Compile(context.Background(), nil, true); err != nil {
+				rec.Violation("C12:derived-version-does-not-compile", err.Error(), "derived versions")
+				return
+			}
+			us.SetSpec(next)
+			atomic.AddInt64(&versions, 1)
+			time.Sleep(200 * time.Microsecond)
+		}
+	}()
+	var wg sync.WaitGroup
+	var bad int32
+	var total int64
+	for g := 0; g < 8; g++ {
+		wg.Add(1)
+		go func() {
+			defer wg.Done()
+			for i := 0; i < 60; i++ {
+				var w *core.Walked
+				var err error
+				if rec.Guard("C12:derived", "walk during derivation of new versions", func() {
+					w, err = us.Spec().Walk(context.Background(), &core.State{NodeName: "start", Bs: match.Bindings{}}, nil, &core.Control{Limit: 10}, nil)
+				}) {
+					atomic.AddInt32(&bad, 1)
+					return
+				}
+				atomic.AddInt64(&total, 1)
+				to := w.To()
+				seen := map[string]bool{}
+				n := 0
+				if err == nil && to != nil {
+					if st, ok := to.Bs["stamps"].([]interface{}); ok {
+						n = len(st)
+						for _, s := range st {
+							seen[fw.Canon(s)] = true
+						}
+					}
+				}
+				if err != nil || to == nil || to.NodeName != "done" || len(seen) != 1 || n != 5 {
+					if atomic.AddInt32(&bad, 1) == 1 {
+						rec.Violation("C12:mixed-versions:derived", fmt.Sprintf("a walk over a version in use, while the next version was being derived from it with Spec.Copy and compiled, carries stamps %v and ends at %v", seen, to), map[string]interface{}{"trace": traceOf(w, err)})
+					}
+					return
+				}
+			}
+		}()
+	}
+	wg.Wait()
+	close(stop)
+	swg.Wait()
+	rec.Eval(int(total))
+	rec.BucketN("derived_versions_installed", atomic.LoadInt64(&versions))
+	if bad == 0 {
+		rec.Bucket("derived_rounds_coherent")
+		rec.Nontrivial(fmt.Sprintf("derived-%d-%d", cfg.Batch, round))
+	}
+}
+
 func Run(cfg fw.Config, rec *fw.Rec) {
 	procs := []int{2, 4, 16}[cfg.Batch%3]
 	runtime.GOMAXPROCS(procs)
 	rec.Bucket(fmt.Sprintf("gomaxprocs_%d", procs))
-	rec.Rule = "shared part: one compiled spec object (random 5-node spec plus property-variable, inequality, @var-target, guarded and permanent-binding branches; native and ECMAScript) walked by 16/32/64 goroutines x 6 walks on distinct machine states, each result compared with the solo result computed beforehand, structural snapshot of the spec compared afterwards; swap part: 16 walkers over an UpdatableSpec while a swapper installs one of 4 versions whose every action, guard and branch target stamps its version; each walk must carry stamps of exactly one version; child built with -race, GOMAXPROCS 2/4/16 by batch; non-trivial = round in which every concurrent result agreed; distinct by spec / round"
-	rec.Required = []string{"shared_rounds_equal_to_solo", "shared_native", "shared_ecma", "swap_rounds_coherent", "swap_walks_straddling_a_swap"}
+	rec.Rule = "shared part: one compiled spec object (random 5-node spec plus property-variable, inequality, @var-target, guarded and permanent-binding branches; native and ECMAScript) walked by 16/32/64 goroutines x 6 walks on distinct machine states, each result compared with the solo result computed beforehand, structural snapshot of the spec compared afterwards; swap part: 16 walkers over an UpdatableSpec while a swapper installs one of 4 versions whose every action, guard and branch target stamps its version; each walk must carry stamps of exactly one version; derived part: the swapper derives each next version from the installed one with Spec.Copy, re-stamps and compiles it while 8 walkers walk the version they obtained; child built with -race, GOMAXPROCS 2/4/16 by batch; non-trivial = round in which every concurrent result agreed; distinct by spec / round"
+	rec.Required = []string{"shared_rounds_equal_to_solo", "shared_native", "shared_ecma", "swap_rounds_coherent", "swap_walks_straddling_a_swap", "derived_rounds_coherent"}
 	rec.Assume = []string{"the race detector reports only races that occur in the interleavings produced; absence over N runs is evidence, not proof", "a processing call obtains the spec once via Specter.Spec(), as sio and mcrew do"}
 	rounds := cfg.Pick(24, 60)
 	for round := 0; round < rounds; round++ {
@@ -284,5 +389,8 @@ func Run(cfg fw.Config, rec *fw.Rec) {
 	}
 	for round := 0; round < cfg.Pick(4, 10); round++ {
 		swapping(cfg, rec, round)
+	}
+	for round := 0; round < cfg.Pick(2, 6); round++ {
+		derived(cfg, rec, round)
 	}
 }
